@@ -528,7 +528,10 @@ class ExprMixin:
         return v
 
     def obj_attr(self, base, attr, node):
-        raise Unsupported(f'opaque attribute {attr}')
+        om = getattr(self.cur_contract, 'opaque', None) or {}
+        if attr in om:
+            return BoundMethod(base, attr)
+        raise Unsupported(f'opaque attribute {attr}: declare it under Contract.opaque')
 
     def ev_Starred(self, e, fr):
         raise Unsupported('starred')
